@@ -22,6 +22,7 @@ mod c18;
 mod c19;
 mod c20;
 mod net;
+mod sched;
 mod tl;
 
 fn main() {
@@ -77,6 +78,7 @@ fn run(module: &str, command: &str, kv: &common::Args) -> i32 {
         ("c17", "drive") => c17::drive(kv),
         ("c20", "drive") => c20::drive(kv),
         ("tl", "drive") => tl::drive(kv),
+        ("sched", "drive") => sched::drive(kv),
         (m, c) => {
             eprintln!("unknown module/command {m} {c}");
             2
